@@ -4,6 +4,7 @@ mod conc;
 mod flw;
 mod fmtk;
 mod lg;
+mod lh;
 mod util;
 
 use std::io::BufRead;
@@ -36,6 +37,8 @@ fn main() {
                 "flw" => flw::run_case(toks[0], &toks[2..]),
                 "tryfrom" => flw::run_tryfrom(toks[0], &toks[2..]),
                 "conc" => conc::run_conc(toks[0], &toks[2..]),
+                "lh" => lh::run_lh(toks[0], &toks[2..]),
+                "mt" => lh::run_mt(toks[0], &toks[2..]),
                 "fmt" => fmtk::run_fmt(&toks[2..]),
                 "frame" => fmtk::run_frame(toks[0], &toks[2..]),
                 "spec" => lg::run_spec(&toks[2..]),
